@@ -561,6 +561,110 @@ fn accepted_any_case(g: &mut Gen, ctx: &mut Ctx) -> CaseResult {
     Ok(())
 }
 
+/// Siblings of mixed provenance in one list: decoded signers / recipients / counter-signatures
+/// (received bytes retained, mostly not the crate's own encoding) next to built twins that carry the
+/// *same header content* without retained bytes, in any order.  Every slot of the re-encoded list
+/// holds its own element's bytes: the received ones for a decoded element, the encoding of the
+/// header for a built one; and the to-be-signed bytes of each signer use that signer's bytes.
+fn mixed_siblings_case(g: &mut Gen, ctx: &mut Ctx) -> CaseResult {
+    let kind = *g.pick(&[Kind::Sign, Kind::Sign, Kind::Encrypt, Kind::Mac, Kind::Recipient]);
+    let item = gen_msg(g, kind, &mut Faults::none(), 1);
+    let (bytes, enc) = styled(&item, g, StyleOpts::ALL);
+    let mut mc = MCtx::default();
+    if m_msg(kind, &enc, &mut mc).is_err() || mc.unspecified {
+        return Ok(());
+    }
+    let aad = g.small_bytes();
+    // expected content of a protected slot
+    fn want(p: &ProtectedHeader) -> Result<Vec<u8>, String> {
+        match &p.original_data {
+            Some(w) => Ok(w.clone()),
+            None if p.header == Header::default() => Ok(vec![]),
+            None => p.header.clone().to_vec().map_err(|e| format!("header of a decoded element does not encode on its own: {:?}", e)),
+        }
+    }
+    macro_rules! mix {
+        ($list:expr, $ty:ident) => {{
+            let mut out: Vec<$ty> = vec![];
+            for e in $list.iter() {
+                let twin = $ty { protected: ProtectedHeader { original_data: None, header: e.protected.header.clone() }, ..e.clone() };
+                match g.below(4) {
+                    0 => out.push(e.clone()),
+                    1 => { out.push(twin); out.push(e.clone()); }
+                    2 => { out.push(e.clone()); out.push(twin); }
+                    _ => { out.push(twin.clone()); out.push(e.clone()); out.push(twin); }
+                }
+            }
+            out
+        }};
+    }
+    let check_list = |out: &[u8], slot: Option<usize>, wants: &[Vec<u8>], what: &str| -> CaseResult {
+        let read = read_strict(out).map_err(|e| format!("{}: re-encoding not strict CBOR: {:?}", what, e))?;
+        let list = match slot {
+            Some(s) => read.as_array().and_then(|a| a.get(s)).cloned(),
+            None => read.as_map().and_then(|m| m.iter().find(|(k, _)| *k == Item::Int(7))).map(|(_, v)| v.clone()),
+        };
+        let list = list.and_then(|x| x.as_array().cloned()).ok_or_else(|| format!("{}: no nested list in the re-encoding", what))?;
+        // a single counter-signature is inlined
+        let list: Vec<Item> = if slot.is_none() && wants.len() == 1 { vec![Item::Array(list)] } else { list };
+        ensure!(list.len() == wants.len(), "{}: re-encoding carries {} nested structures, the value holds {}", what, list.len(), wants.len());
+        for (i, n) in list.iter().enumerate() {
+            let got = n.as_array().and_then(|a| a.first()).and_then(|x| x.as_bytes()).ok_or("nested structure without protected bstr")?;
+            ensure!(got == &wants[i], "{}: element {} of a list of mixed provenance: protected slot holds {} but this element's bytes are {}", what, i, hex_trunc(got, 60), hex_trunc(&wants[i], 60));
+        }
+        Ok(())
+    };
+    let nontrivial;
+    match kind {
+        Kind::Sign => {
+            let mut v = CoseSign::from_slice(&bytes).map_err(|e| format!("valid COSE_Sign rejected: {:?}", e))?;
+            v.signatures = mix!(v.signatures, CoseSignature);
+            let wants: Vec<Vec<u8>> = v.signatures.iter().map(|s| want(&s.protected)).collect::<Result<_, _>>()?;
+            nontrivial = v.signatures.len() >= 2;
+            for (i, sg) in v.signatures.iter().enumerate() {
+                let t = v.tbs_data(&aad, sg);
+                ensure!(elem(&t, 2)? == wants[i], "COSE_Sign of mixed provenance: to-be-signed bytes of signer {} hold {} in the signer slot, this signer's bytes are {}", i, hex_trunc(&elem(&t, 2)?, 60), hex_trunc(&wants[i], 60));
+            }
+            // the same signatures as counter-signatures of a header
+            let h = Header { counter_signatures: v.signatures.clone(), ..Default::default() };
+            if !h.counter_signatures.is_empty() {
+                check_list(&h.to_vec().map_err(|e| format!("header with counter-signatures of mixed provenance fails to encode: {:?}", e))?, None, &wants, "counter-signatures")?;
+            }
+            check_list(&v.clone().to_vec().map_err(|e| format!("COSE_Sign of mixed provenance fails to encode: {:?}", e))?, Some(3), &wants, "COSE_Sign")?;
+        }
+        Kind::Encrypt => {
+            let mut v = CoseEncrypt::from_slice(&bytes).map_err(|e| format!("valid COSE_Encrypt rejected: {:?}", e))?;
+            v.recipients = mix!(v.recipients, CoseRecipient);
+            let wants: Vec<Vec<u8>> = v.recipients.iter().map(|s| want(&s.protected)).collect::<Result<_, _>>()?;
+            nontrivial = v.recipients.len() >= 2;
+            check_list(&v.to_vec().map_err(|e| format!("COSE_Encrypt of mixed provenance fails to encode: {:?}", e))?, Some(3), &wants, "COSE_Encrypt")?;
+        }
+        Kind::Mac => {
+            let mut v = CoseMac::from_slice(&bytes).map_err(|e| format!("valid COSE_Mac rejected: {:?}", e))?;
+            v.recipients = mix!(v.recipients, CoseRecipient);
+            let wants: Vec<Vec<u8>> = v.recipients.iter().map(|s| want(&s.protected)).collect::<Result<_, _>>()?;
+            nontrivial = v.recipients.len() >= 2;
+            check_list(&v.to_vec().map_err(|e| format!("COSE_Mac of mixed provenance fails to encode: {:?}", e))?, Some(4), &wants, "COSE_Mac")?;
+        }
+        _ => {
+            let mut v = CoseRecipient::from_slice(&bytes).map_err(|e| format!("valid COSE_recipient rejected: {:?}", e))?;
+            if v.recipients.is_empty() {
+                return Ok(());
+            }
+            v.recipients = mix!(v.recipients, CoseRecipient);
+            let wants: Vec<Vec<u8>> = v.recipients.iter().map(|s| want(&s.protected)).collect::<Result<_, _>>()?;
+            nontrivial = v.recipients.len() >= 2;
+            check_list(&v.to_vec().map_err(|e| format!("COSE_recipient of mixed provenance fails to encode: {:?}", e))?, Some(3), &wants, "COSE_recipient")?;
+        }
+    }
+    ctx.classf(format!("mixed-siblings:{}", kind.name()));
+    if nontrivial {
+        ctx.nontrivial(hash_str(&format!("mix|{}", hex_trunc(&bytes, 400))));
+        ctx.sample_with(|| format!("{} ({}) whose nested list mixes decoded elements with built twins of the same header content", kind.name(), hex_trunc(&bytes, 40)));
+    }
+    Ok(())
+}
+
 fn case(g: &mut Gen, ctx: &mut Ctx) -> CaseResult {
     if g.ratio(1, 12) {
         return copy_case(g, ctx);
@@ -573,6 +677,9 @@ fn case(g: &mut Gen, ctx: &mut Ctx) -> CaseResult {
     }
     if g.ratio(1, 10) {
         return builder_case(g, ctx);
+    }
+    if g.ratio(1, 10) {
+        return mixed_siblings_case(g, ctx);
     }
     if g.ratio(1, 8) {
         kdf_case(g, ctx)
